@@ -309,6 +309,54 @@ impl Driver for C08 {
                 }
                 nontrivial = declared < 16 || declared as usize > len;
             }
+            // constructors that exist in every feature set (sized tags) and RSDP
+            // checksums over every stored length
+            9 if sub % 4 == 0 => {
+                use multiboot2::*;
+                let r = &mut ctx.rng;
+                fn img<T: multiboot2_common::MaybeDynSized<Header = TagHeader>>(t: &T) -> String {
+                    let n = (multiboot2_common::MaybeDynSized::header(t).size as usize).min(core::mem::size_of::<T>());
+                    hex(unsafe { core::slice::from_raw_parts(t as *const T as *const u8, n) })
+                }
+                let lines = vec![
+                    format!("ApmTag::new {}", img(&ApmTag::new(r.u16(), r.u16(), r.u32(), r.u16(), r.u16(), r.u16(), r.u16(), r.u16(), r.u16()))),
+                    format!("BasicMemoryInfoTag::new {}", img(&BasicMemoryInfoTag::new(r.u32(), r.u32()))),
+                    format!("BootdevTag::new {}", img(&BootdevTag::new(r.u32(), r.u32(), r.u32()))),
+                    format!("EFISdt32Tag::new {}", img(&EFISdt32Tag::new(r.u32()))),
+                    format!("EFISdt64Tag::new {}", img(&EFISdt64Tag::new(r.next()))),
+                    format!("EFIImageHandle32Tag::new {}", img(&EFIImageHandle32Tag::new(r.u32()))),
+                    format!("EFIImageHandle64Tag::new {}", img(&EFIImageHandle64Tag::new(r.next()))),
+                    format!("EFIBootServicesNotExitedTag::new {}", img(&EFIBootServicesNotExitedTag::new())),
+                    format!("ImageLoadPhysAddrTag::new {}", img(&ImageLoadPhysAddrTag::new(r.u32()))),
+                    format!("RsdpV1Tag::new {}", img(&RsdpV1Tag::new(r.u8(), *b"OEMID1", r.u8(), r.u32()))),
+                    format!("RsdpV2Tag::new {}", img(&RsdpV2Tag::new(r.u8(), *b"OEMID2", r.u8(), r.u32(), 36, r.next(), r.u8()))),
+                    format!("EndTag::default {}", img(&EndTag::default())),
+                ];
+                for l in lines {
+                    tr.line(&l);
+                }
+                ctx.count("sized-constructors");
+                nontrivial = true;
+            }
+            9 if sub % 4 == 1 => {
+                // RSDP v2 with every stored length 0..=64 and a checksum byte that makes
+                // the first `length` (<= 36) bytes sum to zero
+                let length = (sub / 4) % 65;
+                let mut body = gen::rsdp_v2(&mut ctx.rng, true, length as u32);
+                put32(&mut body, 20, length as u32);
+                // for lengths beyond the 36 stored bytes make the sum of all 36 bytes + pad zero as well
+                let s: u8 = body.iter().fold(0u8, |a, x| a.wrapping_add(*x));
+                body[16] = body[16].wrapping_sub(s);
+                let mut m = MbiBuf::new();
+                m.push(T_ACPI2, &body);
+                let mut bytes = m.finish();
+                // padding after the tag: zero, so sums over it are predictable
+                for b in &mut bytes[8 + 44..8 + 48] {
+                    *b = 0;
+                }
+                self.mbi_region(ctx, &mut tr, &bytes);
+                nontrivial = true;
+            }
             // hostile standalone tags
             _ => {
                 let typ = (sub % 22) as u32;
